@@ -114,9 +114,9 @@ def renderNat : Nat → Nat → List Char
 /-- Decimal digits of a natural number, most significant first (`"0"` for zero). -/
 def natDigits (v : Nat) : List Char := (toString v).toList
 
-/-- `"%0<w>d" % v` for `v ≥ 0`: at least `w` digits. -/
+/-- `"%0<w>d" % v` for `v ≥ 0`: at least `w` digits, and at least one (`"%00d" % 0` is `"0"`). -/
 def padNat (w v : Nat) : List Char :=
-  if v < 10 ^ w then renderNat w v else natDigits v
+  if w ≠ 0 ∧ v < 10 ^ w then renderNat w v else natDigits v
 
 /-! ## The parser configuration -/
 
